@@ -169,9 +169,9 @@ def pathV (v : Value) (name : String) : Value :=
   match v with
   | .ctx c => (Ctx.get c name).getD .null
   | .list items =>
-    -- every item must be a context; entries that exist are collected
+    -- every item must be a context; an item without the entry gives null
     if items.all (fun i => match i with | .ctx _ => true | _ => false) then
-      .list (items.filterMap (fun i => match i with | .ctx c => Ctx.get c name | _ => none))
+      .list (items.map (fun i => match i with | .ctx c => (Ctx.get c name).getD .null | _ => .null))
     else .null
   | .date y m d =>
     match name with
